@@ -397,11 +397,12 @@ def loadLookupWith (strict : Bool) (file : Bytes) : Option KV := loadWith lookup
 /-- `Encoder::load`: the four street lookups, loaded one after the other (`Street::all()` order) and
     merged with `map.extend`; a loader that fails (panics) fails the whole load. `Blueprint::load` /
     `Blueprint::grow` = `Profile::load` (resp. an empty profile) and this. -/
-def loadEncoder (files : List Bytes) : Option KV :=
-  files.foldl (fun acc f =>
-    match acc, loadLookup f with
-    | some m, some l => some (l.foldl (fun a p => insertKV p.1 p.2 a) m)
-    | _, _ => none) (some [])
+def encStep (acc : Option KV) (f : Bytes) : Option KV :=
+  match acc, loadLookup f with
+  | some m, some l => some (l.foldl (fun a p => insertKV p.1 p.2 a) m)
+  | _, _ => none
+
+def loadEncoder (files : List Bytes) : Option KV := files.foldl encStep (some [])
 
 /-- `Blueprint::load`: fails when either part fails -/
 def loadBlueprintAll (profile : Bytes) (lookups : List Bytes) : Option (PMap × KV) :=
